@@ -21,6 +21,7 @@ import (
 //   v(...rest)        returns 1000 + sum(rest)
 //   w(a, ...rest)     returns a + 10*len(rest)
 //   g(a, b=7)         returns 2*a + b
+//   h(a, b=99)        returns 3*a + b   (same parameter names as g, other default)
 // All arguments are integers, so the reference is a few lines of arithmetic.
 
 type nCall struct {
@@ -42,7 +43,7 @@ type nEvent struct {
 func (e nEvent) String() string { return fmt.Sprintf("%s%v", e.Name, e.Args) }
 
 func genNCall(r *rand.Rand, d int) *nCall {
-	c := &nCall{Name: []string{"v", "v", "w", "g"}[r.Intn(4)]}
+	c := &nCall{Name: []string{"v", "v", "w", "g", "h"}[r.Intn(5)]}
 	n := 0
 	switch c.Name {
 	case "v":
@@ -61,7 +62,7 @@ func genNCall(r *rand.Rand, d int) *nCall {
 	}
 	// g(a, b=7) may be called with named arguments (a trailing run of them):
 	// g(a = X), g(X, b = Y), g(a = X, b = Y) - the values are often calls
-	if c.Name == "g" && r.Intn(2) == 0 {
+	if (c.Name == "g" || c.Name == "h") && r.Intn(2) == 0 {
 		names := []string{"a", "b"}
 		from := r.Intn(len(c.Args))
 		for i := from; i < len(c.Args); i++ {
@@ -111,17 +112,21 @@ func (c *nCall) eval(log *[]nEvent) int64 {
 	case "w":
 		return vals[0] + 10*int64(len(vals)-1)
 	}
-	b := int64(7)
+	b, k := int64(7), int64(2)
+	if c.Name == "h" {
+		b, k = 99, 3
+	}
 	if len(vals) > 1 {
 		b = vals[1]
 	}
-	return 2*vals[0] + b
+	return k*vals[0] + b
 }
 
 var nParams = map[string][]*runtimev2.Param{
 	"v": {{Name: "rest", Variable: true}},
 	"w": {{Name: "a"}, {Name: "rest", Variable: true}},
 	"g": {{Name: "a"}, {Name: "b", Val: func() any { return int64(7) }}},
+	"h": {{Name: "a"}, {Name: "b", Val: func() any { return int64(99) }}},
 }
 
 func (c19) nested(c *mon.Ctx) {
@@ -154,6 +159,7 @@ func (c19) nested(c *mon.Ctx) {
 	}
 
 	var got []nEvent
+	defaultWrong := ""
 	var kept [][]any // the variadic slices exactly as handed over
 	var keptCopy [][]any
 	toInt := func(v any) int64 {
@@ -168,6 +174,7 @@ func (c19) nested(c *mon.Ctx) {
 			},
 			Call: func(ctx *runtimev2.Task, e *ast.CallExpr) *errchain.PlError {
 				var vals []int64
+				dflt := int64(-1)
 				for pi, p := range params {
 					v, err := runtimev2.GetParam(ctx, e, params, pi)
 					if err != nil {
@@ -180,11 +187,12 @@ func (c19) nested(c *mon.Ctx) {
 						for _, x := range lst {
 							vals = append(vals, toInt(x))
 						}
-					} else if !(name == "g" && pi == 1 && len(e.Param) < 2) {
+					} else if !((name == "g" || name == "h") && pi == 1 && len(e.Param) < 2) {
 						vals = append(vals, toInt(v))
 					} else {
-						// the default was taken: not an argument written in the call
-						_ = v
+						// the default was taken: not an argument written in the call,
+						// but it must be THIS function's default
+						dflt = toInt(v)
 					}
 				}
 				ev := nEvent{name, vals}
@@ -200,11 +208,16 @@ func (c19) nested(c *mon.Ctx) {
 				case "w":
 					ret = vals[0] + 10*int64(len(vals)-1)
 				default:
-					b := int64(7)
+					b, k := int64(7), int64(2)
+					if name == "h" {
+						b, k = 99, 3
+					}
 					if len(vals) > 1 {
 						b = vals[1]
+					} else if dflt != b {
+						defaultWrong = fmt.Sprintf("%s(...) with b omitted received the default %d, its declaration says %d", name, dflt, b)
 					}
-					ret = 2*vals[0] + b
+					ret = k*vals[0] + b
 				}
 				ctx.Regs.ReturnAppend(runtimev2.V{V: ret, T: ast.Int})
 				return nil
@@ -213,7 +226,7 @@ func (c19) nested(c *mon.Ctx) {
 	}
 	text := src.String()
 	info := map[string]any{"source": text}
-	table := map[string]*runtimev2.Fn{"v": mk("v"), "w": mk("w"), "g": mk("g")}
+	table := map[string]*runtimev2.Fn{"v": mk("v"), "w": mk("w"), "g": mk("g"), "h": mk("h")}
 	s, err := engine.ParseV2("c19n.p", text, table)
 	c.Eval(1)
 	if err != nil {
@@ -230,6 +243,10 @@ func (c19) nested(c *mon.Ctx) {
 		return
 	case out.Err != nil:
 		c.Violate("getparam-error", fmt.Sprintf("the run failed: %s\n%s", drive.ErrString(out.Err), text), info)
+		return
+	}
+	if defaultWrong != "" {
+		c.Violate("wrong-default", defaultWrong+"\n"+text, info)
 		return
 	}
 	if len(got) != len(want) {
